@@ -3,7 +3,7 @@
 GEN  : spec/Gen_Numbers.tla — integers +-(2^k + d), d in -2..2, around every 7- and 8-bit width step up to
        2^80, 16-bit values, random magnitudes, each rendered in binary (minimal, zero-padded, L=14) and
        text (decimal, hex, binary); the accessor x type x nullness matrix; float bit patterns of every
-       float32-boundary class; payload lengths 127/128/16383/16384; symbol tables crossing VarUInt steps.
+       float32-boundary class; payload lengths 127/128/16383/16384; symbol tables crossing the first VarUInt step (the second, 16,384, is crossed with padding imports in C03).
 EXEC : (a) every Reader accessor on the first value of each document; (b) forests through the three real
        writers and back through the Reader.
 JUDGE: (a) spec/Numbers.tla via Judge_Acc (IntSize never too small, IntValue/Int64Value value-or-error,
@@ -51,7 +51,7 @@ def run(tier):
         core.write_ndjson(os.path.join(d, "streams.ndjson"), core.streams(nstreams, 40, core.seed(), 13))
         rgen = core.tlc_eval(d, "Gen_Numbers", dict(StreamFile="streams.ndjson", OutFile="cases.ndjson",
                                                      ForestFile="forests.ndjson", All16=(tier != "quick"),
-                                                     BigTable=(tier != "quick")), heap="8g")
+                                                     BigTable=False), heap="8g")   # a table of 16,384+ real symbols x 7 writer modes is beyond the TLA+ decoders in a judge run; that ID boundary is crossed with padding imports in C03
         cases = core.read_ndjson(os.path.join(d, "cases.ndjson"))
         forests = core.read_ndjson(os.path.join(d, "forests.ndjson"))
         # (a) accessors
@@ -104,6 +104,21 @@ def run(tier):
                 why = "a representable exponent was not read back exactly (%s)" % (err or got)
             if why:
                 verdicts.fail(dict(part="text-exponent", literal=t, why=why), dict(part="text-exponent", literal=t))
+        # ---- symbol IDs beyond 32 bits in binary: they name no symbol of any table here, so reading them is an error,
+        # never the symbol some narrower integer would name
+        bvm = [0xe0, 0x01, 0x00, 0xea]
+        sids = [("750100000004", "symbol value 2^32+4 (4 = name)"), ("75010000000a", "symbol value 2^32+10"),
+                ("780000000100000004", "symbol value 2^32+4, padded"), ("78ffffffffffffff04", "symbol value near 2^64")]
+        ds = wd.sub("sid")
+        core.write_ndjson(os.path.join(ds, "in.ndjson"), [dict(bytes=bvm + list(bytes.fromhex(h)), mode="binary", cat=[]) for h, _ in sids])
+        core.run_harness("read", os.path.join(ds, "in.ndjson"), os.path.join(ds, "obs.ndjson"))
+        for (h, what), o in zip(sids, core.read_ndjson(os.path.join(ds, "obs.ndjson"))):
+            err = o["rerr"] or o["errAfter"]
+            syms = [v for v in o["back"] if v["t"] == "symbol" and v["v"].get("k") == "text"]
+            if o["rpanic"] or (not err and syms):
+                verdicts.fail(dict(part="wide-symbol-id", doc=h, why="panic" if o["rpanic"] else
+                                   "a symbol ID beyond 32 bits was read as the symbol a narrower ID names", what=what),
+                              dict(part="text-exponent", literal=h))
         rc = verdicts.report()
         kinds = {}
         for c in cases:
